@@ -579,7 +579,7 @@ def _facet_friendly(prog, rnd, facet):
 _FS_CACHE = None
 
 
-def enumerate_formspace(chk=None, facets=False, exprs=False):
+def enumerate_formspace(chk=None, facets=False, exprs=False, complex_terms=False):
     """All valid abstract cases of FormSpace.tla, as TLC enumerates them."""
     global _FS_CACHE
     if _FS_CACHE is None:
@@ -605,7 +605,11 @@ def enumerate_formspace(chk=None, facets=False, exprs=False):
         _FS_CACHE = (cases, fcases, ecases)
     if chk is not None:
         chk.add(formspace_cases=sum(len(x) for x in _FS_CACHE))
-    return _FS_CACHE[2] if exprs else _FS_CACHE[1] if facets else _FS_CACHE[0]
+    if exprs:
+        return _FS_CACHE[2]
+    if facets:
+        return _FS_CACHE[1]
+    return [c for c in _FS_CACHE[0] if complex_terms or c["term"] != "cplx"]     # 'cplx' needs a complex scalar type
 
 
 _NDOF = {"P1": 1, "P2": 3, "P3": 6, "DG0": 0.4, "DG1": 1, "vP1": 2.5, "vP2": 7, "symP1": 3, "TH": 8, "RT1": 1, "N1": 1.5,
